@@ -93,7 +93,7 @@ def char6_part(ctx):
             s = bytearray(rand_alpha(rng, n))
             s[pos] = 0x2e
             cases.append(bytes(s))
-    for _ in range(ctx.budget(2500, 60000)):
+    for _ in range(ctx.budget(1500, 60000)):
         cases.append(rand_string(rng))
     for c in range(256):
         cases.append(bytes([c]))
@@ -190,7 +190,7 @@ def sweep_part(ctx):
     64-symbol alphabet): encodable exactly when not ending in a dot, id negative, decode(encode s) = s
     (which makes encode injective), Query/Intern/Value agree."""
     full = ctx.tier == "thorough"
-    deep = set(ALPHA) if full else set(ctx.rng.shuffle(list(ALPHA))[:16])
+    deep = set(ALPHA) if full else set(ctx.rng.shuffle(list(ALPHA))[:8])
     ins = [{"mode": "sweep", "first": "", "maxrest": 0}] + \
           [{"mode": "sweep", "first": bytes([c]).hex(), "maxrest": 4 if c in deep else 3} for c in ALPHA]
     outs = ctx.impl("intern", ins, shards=NCPU)
@@ -219,7 +219,7 @@ def sweep_part(ctx):
     ctx.evaluations += total
     ctx.hist["sweep-alphabet-strings"] = total
     ctx.extra["sweep"]["coverage"] = ("all strings of length <= 5 over the 64-symbol alphabet" if full else
-                                      "all strings of length <= 4, and all of length 5 below 16 of the 64 first symbols (the thorough tier sweeps all of 64^5)")
+                                      "all strings of length <= 4, and all of length 5 below 8 of the 64 first symbols (the thorough tier sweeps all of 64^5)")
 
 
 def make_pool(rng, n):
@@ -375,13 +375,20 @@ def conc_oracle(ctx, i, o, terms, meta, klass):
 
 
 def run(ctx):
-    ncases = char6_part(ctx)
+    import time
+    tm = {}
+    t0 = time.time()
+    char6_part(ctx)
+    tm["char6"] = round(time.time() - t0, 1)
+    t0 = time.time()
     sweep_part(ctx)
+    tm["sweep"] = round(time.time() - t0, 1)
+    t0 = time.time()
     terms, meta = seq_part(ctx)
     ins = conc_inputs(ctx, ctx.budget(800, 6000))
     outs = ctx.impl("intern", ins, shards=4)
     # every run goes through the direct oracle; the first ones (and every one the oracle flags) also go to the model
-    ncoq = ctx.budget(150, 1500)
+    ncoq = ctx.budget(100, 1500)
     for k, (i, o) in enumerate(zip(ins, outs)):
         nv = len(ctx.violations)
         sink_t, sink_m = ([], []) if k >= ncoq else (terms, meta)
@@ -407,7 +414,11 @@ def run(ctx):
         ctx.extra["race_detector_runs"] = len(rins)
     header = ("From Coq Require Import List NArith ZArith Bool.\nImport ListNotations.\n"
               "From PV Require Import Common.Corr Model.Char6 Model.Intern.\nOpen Scope Z_scope.\n")
+    tm["table-runs"] = round(time.time() - t0, 1)
+    t0 = time.time()
     mism, err = coq_eval_mismatches("cases_C38b", header, terms, "intern_chk", shard_size=max(25, len(terms) // 12 + 1))
+    tm["table-model"] = round(time.time() - t0, 1)
+    ctx.extra["timing_s"] = tm
     if err:
         raise RuntimeError(err)
     for k in mism:
@@ -418,7 +429,7 @@ def run(ctx):
                 "(len 0..12), and decode on boundary / random int32 ids; plus an implementation-side sweep of ALL 64^0+..+64^5 alphabet strings; "
                 "table: random op sequences (Intern/Query/Value) on one table run sequentially against the model's sequential schedule, and random "
                 "string multisets interned by 2..32 goroutines (same order / own order / random repeats): every run through the direct oracle, the first "
-                "150 (quick) also checked against the model run in the observed commit order; distinct = distinct input string / id / op sequence / program set; non-trivial = non-empty string, at least one Intern, "
+                "100 (quick) also checked against the model run in the observed commit order; distinct = distinct input string / id / op sequence / program set; non-trivial = non-empty string, at least one Intern, "
                 "more than one goroutine with at least one table string")
     ctx.exhaustive = True
     ctx.extra["exhaustive_part"] = ("all strings of length <= 2 over 67 symbols (model vs implementation); implementation-side oracle: "
